@@ -1256,10 +1256,19 @@ def selftest_binding(rp, cases):
     res = {'correct_case_accepted': flagged(case) == [],
            'inverted_input_expectation_flagged': flagged(dict(case, ins=[False, True])) != [],
            'inverted_claim_expectation_flagged': flagged(dict(case, claim='invalid')) != []}
-    lay = [list(x) for x in case['layouts']]
-    a = [i for i, d in enumerate(lay[0]) if d['f'] == 'locktime'][0]
-    lay[0][a], lay[0][a + 1] = lay[0][a + 1], lay[0][a]
-    res['exchanged_layout_fields_rejected'] = any('does-not-verify' in k for k in flagged(case, lay))
+    # (several exchanges are tried: two neighbouring fields may happen to hold the same bytes in this scenario - e.g. a random
+    # lock time of 1 next to the hash type 1 - and exchanging those changes nothing; one rejected exchange is the evidence wanted)
+    a = [i for i, d in enumerate(case['layouts'][0]) if d['f'] == 'locktime'][0]
+    rejected = False
+    for pos in (a, 0, 1, max(0, a - 1)):
+        lay = [list(x) for x in case['layouts']]
+        if pos + 1 >= len(lay[0]):
+            continue
+        lay[0][pos], lay[0][pos + 1] = lay[0][pos + 1], lay[0][pos]
+        if any('does-not-verify' in k for k in flagged(case, lay)):
+            rejected = True
+            break
+    res['exchanged_layout_fields_rejected'] = rejected
     cl = list(case['clayout'])
     cl[0], cl[1] = cl[1], cl[0]
     res['exchanged_digest_fields_rejected'] = flagged(dict(case, clayout=cl)) != []
